@@ -1,0 +1,41 @@
+//go:build verif
+
+package template
+
+// Verification hooks (build tag "verif" only): thin wrappers that let an external
+// harness call constant-only constructors and internal helpers with generated inputs.
+// They add no behaviour of their own.
+
+func VerifTrustedSourceFromConstant(src string) TrustedSource {
+	return TrustedSourceFromConstant(stringConstant(src))
+}
+
+func VerifTrustedSourceFromConstantDir(dir string, src TrustedSource, filename string) (TrustedSource, error) {
+	return TrustedSourceFromConstantDir(stringConstant(dir), src, filename)
+}
+
+func VerifValidateURLPrefix(prefix string) error { return validateURLPrefix(prefix) }
+
+func VerifValidateTrustedResourceURLPrefix(prefix string) error {
+	return validateTrustedResourceURLPrefix(prefix)
+}
+
+func VerifDecodeURLPrefix(prefix string) (string, error) { return decodeURLPrefix(prefix) }
+
+// VerifSanitizationContextForAttrVal returns the name of the sanitization context.
+func VerifSanitizationContextForAttrVal(element, attr, linkRel string) (string, error) {
+	sc, err := sanitizationContextForAttrVal(element, attr, linkRel)
+	if err != nil {
+		return "", err
+	}
+	return sc.String(), nil
+}
+
+// VerifSanitizationContextForElementContent returns the name of the sanitization context.
+func VerifSanitizationContextForElementContent(element string) (string, error) {
+	sc, err := sanitizationContextForElementContent(element)
+	if err != nil {
+		return "", err
+	}
+	return sc.String(), nil
+}
